@@ -185,6 +185,20 @@ def specDumpRecords (records : List RecSpec) (results : List ModDict) (h : Handl
     if conversionFault records results then failSafe before o
     else written h before (expectedRecords records results) o
 
+def Ev.writesOrRemoves : Ev → Bool
+  | .write _ => true
+  | .remove _ => true
+  | _ => false
+
+/-- with a directory at the target path nothing can be written: whatever the results, the call must
+    fail, leave every entry as it was, and write nothing (an attempted `open` is all that may show) -/
+def specWriteAt (r : Results) (h : Handle) (before : Dir) (o : Out) : Bool :=
+  if targetIsDir h before then
+    convertThenTouch o.trace && o.err.isSome && decide (o.dir = before) &&
+      !o.trace.any Ev.writesOrRemoves &&
+      (!r.hasFault || !o.trace.any Ev.touchesFiles)
+  else specWriteToFile r h before o
+
 /-! ### the output directory -/
 
 /-- the lexical identity of a path: how many leading slashes survive, and the components that remain
